@@ -58,7 +58,8 @@ def _data_ok(e):
 def plan(tier, seed):
     cases = []
     combos = [(1, 1), (1, 2), (2, 1)] + ([(2, 2)] if tier == "thorough" else [])
-    bases = ["frame", "frame_index", "frame_multi", "series", "column"] if tier == "thorough" else ["frame", "series", "column"]
+    bases = (["frame", "frame_index", "frame_multi", "series", "column", "frame_parsing"] if tier == "thorough"
+             else ["frame", "series", "column", "frame_index", "frame_parsing"])
     for b in bases:
         for (ks, kd) in combos:
             if tier == "quick" and b != "frame" and (ks, kd) != (1, 1):
@@ -70,6 +71,8 @@ def plan(tier, seed):
         nsh = {(1, 1): 2, (1, 2): 12, (2, 1): 12}[(ks, kd)]
         for sh in range(nsh):
             cases.append({"base": "frame", "ks": ks, "kd": kd, "shard": [sh, nsh], "backend": "polars"})
+    for sh in range(4):   # the parsing corner (optional / defaulted / nullable columns, ordered, add_missing_columns) for the polars twin
+        cases.append({"base": "frame_parsing", "ks": 1, "kd": 1, "shard": [sh, 4], "backend": "polars"})
     cases.append({"model": True, "backend": "pandas"})
     return {"cases": cases, "exhaustive": True,
             "bounds": {"edits": combos, "bases": bases, "rows": "<= 4"},
